@@ -399,4 +399,83 @@ theorem checkLink_none (C : Crypto) (reg : Option (List (List Nat × Nat))) (p b
             exact ⟨by simpa using h1, by simpa using h2, by simpa using h3, by omega, h5⟩
           · cases h
 
+/-! ### the commit pipeline -/
+
+
+/-- the block `commit` builds from the state it reads at the `build` step -/
+def builtBlock (C : Crypto) (n : Node) (ops : List Tx) (dirs : List Nat) (root : List Nat) (ts : Nat) : Block :=
+  let h0 : Header :=
+    { height := n.chain.height + 1, prevHash := n.chain.tip, txRoot := txRoot C ops, stateRoot := root,
+      embedding := embBytes dirs, codes := [], timestamp := ts, proposer := n.cfg.nodeId, signature := [] }
+  { header := { h0 with signature := C.sign n.cfg.key h0.bytes }, txs := ops, sigs := [] }
+
+theorem finish_chain (n : Node) (ids : List Nat) (st : WsState) : (finish n ids st).chain = n.chain := rfl
+
+theorem pipeline (C : Crypto) (n : Node) (l : Local) (hpc : l.pc = .snapshot) :
+    let r := commitRun C 7 n l
+    (∃ c', append C n.cfg.registry { n.chain with store := applyTxs n.chain.store l.ops }
+              (builtBlock C n l.ops l.dirs (stateRoot C (applyTxs n.chain.store l.ops)) l.ts) = .ok c' ∧
+            r.1.chain = c' ∧ r.2.res = some (.ok c'.height) ∧ r.2.ops = l.ops)
+    ∨ (r.1.chain = n.chain ∧ ∀ h, r.2.res ≠ some (.ok h)) := by
+  intro r
+  cases happ : append C n.cfg.registry { n.chain with store := applyTxs n.chain.store l.ops }
+              (builtBlock C n l.ops l.dirs (stateRoot C (applyTxs n.chain.store l.ops)) l.ts) with
+  | ok c' =>
+    left
+    refine ⟨c', rfl, ?_⟩
+    simp only [r, commitRun, commitStep, hpc, builtBlock] at happ ⊢
+    simp [happ, finish_chain]
+  | error e =>
+    right
+    simp only [r, commitRun, commitStep, hpc, builtBlock] at happ ⊢
+    simp [happ, finish_chain]
+
+
+theorem prepare_cases (C : Crypto) (n : Node) (w ts : Nat) :
+    let r := commitStep C n (Local.init w ts)
+    (r.2.pc = .done ∧ r.1.chain = n.chain ∧ ∀ h, r.2.res ≠ some (.ok h)) ∨
+    (r.2.pc = .snapshot ∧ r.1.chain = n.chain ∧ r.1.cfg = n.cfg ∧ r.2.ts = ts ∧
+      ∃ ws extra, findWs n.wss w = some ws ∧ r.2.ops = ws.ops ++ extra) := by
+  intro r
+  simp only [r, commitStep, Local.init]
+  cases hf : findWs n.wss w with
+  | none => left; simp
+  | some ws =>
+    simp only
+    split
+    · left; simp
+    · split
+      · left; simp [finish]
+      · split
+        · left; simp [finish]
+        · split
+          · left; simp [finish]
+          · split
+            · left; simp [finish]
+            · right; simp
+
+
+theorem fixTxRoot_txs (C : Crypto) (b : Block) : (fixTxRoot C b).txs = b.txs := by
+  unfold fixTxRoot; split <;> rfl
+
+/-- the checks of `Chain::append` read only the in-memory height and tip, never the store -/
+def appendCheck (C : Crypto) (reg : Option (List (List Nat × Nat))) (height : Nat) (tip : List Nat) (b : Block) :
+    Except AppendErr Block :=
+  if b.header.height ≠ height + 1 then .error .height
+  else if b.header.prevHash ≠ tip then .error .prevHash
+  else if (fixTxRoot C b).header.txRoot ≠ txRoot C (fixTxRoot C b).txs then .error .txRoot
+  else if height + 1 > 1 ∧ (fixTxRoot C b).header.signature = [] then .error .unsigned
+  else if height + 1 > 1 ∧ regSigOk C reg (fixTxRoot C b).header = false then .error .badSig
+  else .ok (fixTxRoot C b)
+
+theorem append_eq (C : Crypto) (reg : Option (List (List Nat × Nat))) (c : ChainSt) (b : Block) :
+    append C reg c b =
+      match appendCheck C reg c.height c.tip b with
+      | .ok b' => .ok { store := sput (sput c.store (.block (c.height + 1)) (.block b')) .chainMeta (.height (c.height + 1)),
+                        height := c.height + 1, tip := b'.header.hash C }
+      | .error e => .error e := by
+  unfold append appendCheck
+  simp only
+  (repeat' split) <;> simp_all
+
 end Neumann.Chain
